@@ -320,9 +320,19 @@ impl Normalizer {
                 if let Some(a) = single_atom(&f) {
                     return Some(H::N(a));
                 }
-                match self.rep_of.get(&i) {
+                // a substituted atom stands for its replacement term: use that term's class
+                let mut cur = i;
+                let mut guard = 0;
+                while let Some(&H::N(t)) = self.subst.get(&cur) {
+                    cur = t;
+                    guard += 1;
+                    if guard > 64 {
+                        break;
+                    }
+                }
+                match self.rep_of.get(&cur) {
                     Some(&r) => Some(r),
-                    None => Some(h),
+                    None => Some(H::N(cur)),
                 }
             }
         }
